@@ -296,6 +296,10 @@ func registerHarnessAPI(e *Exec) {
 			st.noMerge = true
 			return ret(st)
 		},
+		"vIsConcrete": func(e *Exec, st *State, fn *ssa.Function, args []Value) []Outcome {
+			_, ok := e.concreteString(args[0].(StringV))
+			return ret(st, BoolV{e.tc.BoolConst(ok)})
+		},
 		"vSymbolic": func(e *Exec, st *State, fn *ssa.Function, args []Value) []Outcome {
 			return ret(st, BoolV{e.tc.True()})
 		},
